@@ -35,7 +35,7 @@ REQUIRED_BUCKETS = ["container:list", "container:numpy", "update-rejected-too-ol
                     "jump-beyond-capacity", "off-grid-update", "half-period-tie", "missing-value-written",
                     "gap-split", "eviction", "query-unaligned", "query-same-slot", "fill-value-zero", "query-index-negative",
                     "query-index-out-of-range", "at-index", "at-timestamp", "at-timestamp-unaligned", "at-gap-slot", "at-out-of-range",
-                    "moving-window"]
+                    "moving-window", "dump-load-round-trip"]
 REQUIRED_COUNTERS = ["updates_checked", "window_queries_checked", "at_queries_checked", "gap_invariant_checks"]
 ASSUMPTIONS = ["timestamps exact to the microsecond; values unique per write"]
 
@@ -78,7 +78,9 @@ def gen(rng: Any, tier: str, i: int) -> Any:
         if newest is None or slot >= newest - cap + 1:
             newest = slot if newest is None else max(newest, slot)
     return {"cap": cap, "period": period, "align_off": align_off, "container": rng.choice(["list", "numpy"]),
-            "updates": ups, "qseed": rng.randrange(1 << 30)}
+            "updates": ups, "qseed": rng.randrange(1 << 30),
+            # after this many updates the buffer is dumped to disk and the re-loaded copy is used from then on
+            "reload_at": rng.choice([None, None, rng.randint(1, max(1, len(ups)))])}
 
 
 def _slot(t: F) -> int:
@@ -150,7 +152,26 @@ def check(case: dict[str, Any], rec: Any) -> None:
     accepted: list[tuple[float, Any]] = []
     interesting = False
     hist = []
-    for t, val in case["updates"]:
+    for n_up, (t, val) in enumerate(case["updates"]):
+        if case.get("reload_at") == n_up and n_up > 0:
+            # serialization round trip (timeseries/_ringbuffer/serialization.py): the loaded buffer must be the same map
+            import os
+            import tempfile
+
+            from frequenz.sdk.timeseries._ringbuffer import serialization
+
+            fd, path = tempfile.mkstemp(prefix="vf-c09-", suffix=".pkl")
+            os.close(fd)
+            try:
+                serialization.dump(buf, path)
+                loaded = serialization.load(path)
+            finally:
+                os.unlink(path)
+            rec.bucket("dump-load-round-trip")
+            if loaded is None:
+                rec.violation("serialization-load-returned-None", {"history": hist[-12:]})
+                return
+            buf = loaded
         slot = _slot(F(str(t)))
         v = None if val is None else (math.nan if val == "nan" else float(val))
         hist.append([t, val])
